@@ -521,3 +521,192 @@ Proof.
   - rewrite rsumf_div. apply (f_equal (fun a => a / _)). apply rsumf_ext. intros j _. rewrite Nat.sub_0_r. reflexivity.
   - intros j _. destruct (Z.eqb _ _); [reflexivity | change (o0 ROps) with 0; unfold Rdiv; ring].
 Qed.
+
+Ltac ropsimp := change (omul ROps) with Rmult; change (odiv ROps) with Rdiv; change (osub ROps) with Rminus;
+  change (oadd ROps) with Rplus; change (oopp ROps) with Ropp; change (o0 ROps) with 0; rsimp.
+
+(* ================================================================== MLKR *)
+(* leave-one-out kernel regression error along any family q_ij(t):  F = sum_i (sum_j y_j e_ij / sum_j e_ij - y_i)^2 *)
+Section SoftmaxSq.
+  Variable n : nat.
+  Variable qf : nat -> nat -> R -> R.
+  Variable dq : nat -> nat -> R.
+  Variable yv : nat -> R.
+  Notation idx := (seq 0 n).
+  Hypothesis Hq : forall i j, In i idx -> In j idx -> is_derive (qf i j) 0 (dq i j).
+  Hypothesis HZ : forall i, In i idx -> Zf n qf i 0 <> 0.
+
+  Definition Ny (i : nat) (t : R) : R := rsumf (fun j => yv j * ef qf i j t) idx.
+  Definition Fy (t : R) : R := rsumf (fun i => (Ny i t / Zf n qf i t - yv i) * (Ny i t / Zf n qf i t - yv i)) idx.
+  Definition dNy (i : nat) : R := rsumf (fun j => yv j * de qf dq i j) idx.
+  Definition ry (i : nat) : R := Ny i 0 / Zf n qf i 0.
+
+  Lemma Ny_derive i : In i idx -> is_derive (Ny i) 0 (dNy i).
+  Proof.
+    intro Hi. unfold Ny, dNy.
+    apply (is_derive_rsumf idx (fun j t => yv j * ef qf i j t) (fun j => yv j * de qf dq i j)).
+    intros j Hj. apply is_derive_scal. apply (ef_derive n qf dq Hq i j Hi Hj).
+  Qed.
+
+  Definition dFy : R :=
+    rsumf (fun i => 2 * (ry i - yv i) * ((dNy i * Zf n qf i 0 - Ny i 0 * dZ n qf dq i) / (Zf n qf i 0) ^ 2)) idx.
+
+  Lemma Fy_derive : is_derive Fy 0 dFy.
+  Proof.
+    unfold Fy, dFy.
+    apply (is_derive_rsumf idx (fun i t => (Ny i t / Zf n qf i t - yv i) * (Ny i t / Zf n qf i t - yv i))
+             (fun i => 2 * (ry i - yv i) * ((dNy i * Zf n qf i 0 - Ny i 0 * dZ n qf dq i) / (Zf n qf i 0) ^ 2))).
+    intros i Hi.
+    assert (Hr: is_derive (fun t => Ny i t / Zf n qf i t - yv i) 0
+                          ((dNy i * Zf n qf i 0 - Ny i 0 * dZ n qf dq i) / (Zf n qf i 0) ^ 2)).
+    { evar_last.
+      apply (is_derive_minus (V:=R_NormedModule) (fun t => Ny i t / Zf n qf i t) (fun _ => yv i) 0
+               ((dNy i * Zf n qf i 0 - Ny i 0 * dZ n qf dq i) / (Zf n qf i 0) ^ 2) 0).
+      - apply is_derive_div; [apply Ny_derive, Hi | apply (Zf_derive n qf dq Hq i Hi) | apply HZ, Hi].
+      - apply (is_derive_const (V:=R_NormedModule) (yv i) 0).
+      - unfold minus, plus, opp, zero; cbn. ring. }
+    evar_last. apply (Derive.is_derive_mult _ _ 0 _ _ Hr Hr). unfold ry. ring.
+  Qed.
+
+  Definition Wy (i j : nat) : R := 2 * (Pv n qf i j * (ry i - yv i) * (yv j - ry i)).
+
+  Lemma ry_sum i : ry i = rsumf (fun j => yv j * Pv n qf i j) idx.
+  Proof.
+    unfold ry, Ny, Pv. rewrite <- rsumf_div. apply rsumf_ext. intros j _. unfold Rdiv. ring.
+  Qed.
+
+  Lemma dFy_form : dFy = - rsumf (fun i => rsumf (fun j => Wy i j * dq i j) idx) idx.
+  Proof.
+    unfold dFy. rewrite <- rsumf_opp. apply rsumf_ext. intros i Hi.
+    pose proof (HZ i Hi) as Hz.
+    replace ((dNy i * Zf n qf i 0 - Ny i 0 * dZ n qf dq i) / Zf n qf i 0 ^ 2)
+      with (dNy i / Zf n qf i 0 - ry i * (dZ n qf dq i / Zf n qf i 0)) by (unfold ry; field; exact Hz).
+    unfold dNy, dZ. rewrite <- !rsumf_div, <- rsumf_scal, <- rsumf_minus, <- rsumf_scal, <- rsumf_opp.
+    apply rsumf_ext. intros j _. unfold Wy.
+    replace (yv j * de qf dq i j / Zf n qf i 0) with (yv j * (de qf dq i j / Zf n qf i 0)) by (unfold Rdiv; ring).
+    rewrite (de_over_Z n qf dq). ring.
+  Qed.
+
+  Lemma Wy_row_sum i : In i idx -> rsumf (Wy i) idx = 0.
+  Proof.
+    intro Hi. unfold Wy. rewrite rsumf_scal.
+    rewrite (rsumf_ext (fun j => Pv n qf i j * (ry i - yv i) * (yv j - ry i))
+                       (fun j => (ry i - yv i) * (yv j * Pv n qf i j) - (ry i - yv i) * ry i * Pv n qf i j))
+      by (intros j _; ring).
+    rewrite rsumf_minus, !rsumf_scal, <- ry_sum, (Pv_row_sum n qf HZ i Hi). ring.
+  Qed.
+
+  Lemma Wy_diag i : Wy i i = 0.
+  Proof. unfold Wy, Pv, ef. rewrite Nat.eqb_refl. unfold Rdiv. ring. Qed.
+End SoftmaxSq.
+
+Section MainMLKR.
+  Variables (k d : nat) (L E X : Rm) (yv : Rv).
+  Hypothesis HL : wfmR k d L.
+  Hypothesis HE : wfmR k d E.
+  Hypothesis HX : List.Forall (wfvR d) X.
+  Hypothesis Hn : (2 <= length X)%nat.
+  Notation n := (length X).
+  Notation idx := (seq 0 n).
+  Notation qfn' := (qfn L E X).
+  Notation cc' := (cc L E X).
+  Definition yfun (j : nat) : R := nth j yv 0.
+
+  Lemma HZ' : forall i, In i idx -> Zf n qfn' i 0 <> 0.
+  Proof. intros i Hi. pose proof (Zf_pos L E X Hn i Hi). lra. Qed.
+
+  Lemma yhat_ratio (M : Rm) i :
+    @yhat ROps exp M X yv i = rsumf (fun j => yfun j * @ee ROps exp M X i j) idx / @Zs ROps exp M X i.
+  Proof.
+    unfold yhat. rewrite (isum_rsumf X). rewrite <- rsumf_div. apply rsumf_ext. intros j _.
+    unfold pp, yfun. ropsimp. unfold Rdiv. ring.
+  Qed.
+
+  Lemma mlkr_loss_Fy t : @mlkr_loss ROps exp (line L E t) X yv = Fy n qfn' yfun t.
+  Proof.
+    unfold mlkr_loss, Fy. rewrite (isum_rsumf X). apply rsumf_ext. intros i _. cbv zeta.
+    rewrite yhat_ratio. unfold Zs. rewrite (isum_rsumf X). reflexivity.
+  Qed.
+
+  Lemma ry_yhat i : ry n qfn' yfun i = @yhat ROps exp L X yv i.
+  Proof.
+    rewrite yhat_ratio. unfold ry, Ny. rewrite (Zf0_Zs k d L E X HL HE).
+    f_equal. apply rsumf_ext. intros j _. rewrite (ef0_ee k d L E X HL HE). reflexivity.
+  Qed.
+
+  Lemma Wy_Wm i j : Wy n qfn' yfun i j = 2 * @Wm ROps exp L X yv i j.
+  Proof.
+    unfold Wy, Wm. rewrite (Pv_pp k d L E X HL HE), ry_yhat. unfold yfun.
+    ropsimp. ring.
+  Qed.
+
+  Lemma Sm_Sv i j : 2 * @Sm ROps exp L X yv i j = Sv n (Wy n qfn' yfun) i j.
+  Proof.
+    unfold Sm, Sv, colsum. rewrite (isum_rsumf X).
+    destruct (Nat.eqb i j) eqn:Eij.
+    - apply Nat.eqb_eq in Eij. subst j. rewrite !Wy_diag.
+      rewrite (rsumf_ext (fun k0 => Wy n qfn' yfun k0 i) (fun k0 => 2 * @Wm ROps exp L X yv k0 i)) by (intros; apply Wy_Wm).
+      rewrite rsumf_scal. ropsimp. ring.
+    - rewrite !Wy_Wm. ropsimp. ring.
+  Qed.
+
+  Lemma term_wfm_m i j : In i idx -> In j idx ->
+    wfmR k d (mscaleR (@Sm ROps exp L X yv i j) (outerR (mvmulR L (ptR X i)) (ptR X j))).
+  Proof.
+    intros Hi Hj. apply mscale_wfm, outer_wfm_kd; [apply (av_len k d L X HL) | apply (pt_wf d X HX), Hj].
+  Qed.
+
+  Lemma mlkr_grad_frob : frobR (@mlkr_grad ROps exp k d L X yv) E =
+    4 * rsumf (fun i => rsumf (fun j => @Sm ROps exp L X yv i j * cc' i j) idx) idx.
+  Proof.
+    unfold mlkr_grad. rewrite frob_mscale. replace (@oofZ ROps 4) with 4 by (cbn; lra).
+    apply (f_equal (Rmult 4)).
+    rewrite (frob_msum k d).
+    - apply rsumf_ext. intros i Hi. rewrite (frob_msum k d).
+      + apply rsumf_ext. intros j Hj. rewrite frob_mscale, frob_outer. reflexivity.
+      + intros j Hj. apply term_wfm_m; auto.
+    - intros i Hi. apply msum_wfm. intros j Hj. apply term_wfm_m; auto.
+  Qed.
+
+  Theorem mlkr_gradient_is_derivative :
+    is_derive (fun t => @mlkr_loss ROps exp (line L E t) X yv) 0 (frobR (@mlkr_grad ROps exp k d L X yv) E).
+  Proof.
+    apply (is_derive_ext (Fy n qfn' yfun)); [intro t; symmetry; apply mlkr_loss_Fy|].
+    evar_last. apply (Fy_derive n qfn' (dqn L E X) yfun (qfn_derive k d L E X HL HE HX) HZ').
+    rewrite (dFy_form n qfn' (dqn L E X) yfun HZ'), mlkr_grad_frob.
+    replace (4 * rsumf (fun i => rsumf (fun j => @Sm ROps exp L X yv i j * cc' i j) idx) idx)
+      with (2 * rsumf (fun i => rsumf (fun j => Sv n (Wy n qfn' yfun) i j * cc' i j) idx) idx).
+    - rewrite <- (laplacian_identity n (Wy n qfn' yfun) cc' (Wy_row_sum n qfn' yfun HZ')).
+      unfold dqn.
+      rewrite (rsumf_ext (fun i => rsumf (fun j => Wy n qfn' yfun i j * (2 * (cc' i i - cc' i j - cc' j i + cc' j j))) idx)
+                         (fun i => 2 * rsumf (fun j => Wy n qfn' yfun i j * (cc' i i - cc' i j - cc' j i + cc' j j)) idx)).
+      + rewrite rsumf_scal. ring.
+      + intros i _. rewrite <- rsumf_scal. apply rsumf_ext. intros j _. ring.
+    - replace 4 with (2 * 2) by ring. rewrite Rmult_assoc. f_equal.
+      rewrite <- rsumf_scal. apply rsumf_ext. intros i _. rewrite <- rsumf_scal. apply rsumf_ext. intros j _.
+      rewrite <- Sm_Sv. ring.
+  Qed.
+End MainMLKR.
+
+(* the documented MLKR objective (Model/Objectives.v) is the cost of the code *)
+Lemma vdot_map_seq (f : nat -> R) : forall m (y : Rv) s, length y = m ->
+  vdotR (map f (seq s m)) y = rsumf (fun j => f j * nth (j - s) y 0) (seq s m).
+Proof.
+  induction m as [|m IH]; intros [|b y] s H; cbn in H; try discriminate; cbn [seq map vdot rsumf]; [reflexivity|].
+  rewrite (IH y (S s)) by lia. rewrite Nat.sub_diag. cbn [nth].
+  ropsimp. f_equal.
+  apply rsumf_ext. intros j Hj. apply in_seq in Hj. replace (j - s)%nat with (S (j - S s)) by lia. reflexivity.
+Qed.
+
+Theorem mlkr_obj_is_loss (ex : R -> R) (L X : Rm) (yv : Rv) : length yv = length X ->
+  @mlkr_obj ROps ex L X yv = @mlkr_loss ROps ex L X yv.
+Proof.
+  intro Hy. unfold mlkr_obj, mlkr_loss, isum. f_equal. apply map_ext. intro i. cbv zeta.
+  rewrite kern_index, (vdot_map_seq _ (length X) yv 0 Hy), vsum_map_rsumf.
+  assert (Eh: @yhat ROps ex L X yv i =
+              rsumf (fun j => @ee ROps ex L X i j * nth (j - 0) yv 0) (seq 0 (length X)) / rsumf (@ee ROps ex L X i) (seq 0 (length X))).
+  { unfold yhat, isum. rewrite vsum_map_rsumf. rewrite <- rsumf_div. apply rsumf_ext. intros j _.
+    unfold pp, Zs, isum. rewrite vsum_map_rsumf, Nat.sub_0_r.
+    ropsimp. unfold Rdiv. ring. }
+  rewrite Eh. reflexivity.
+Qed.
